@@ -71,6 +71,11 @@ def return_kinds(ctx, fi):
 
 def run(ctx, rep):
     ix, T = ctx.ix, ctx.typer
+    from .common import check_fast_paths
+    _fp_mods = ["jaqalpaq.core.algorithm.fill_in_let"]
+    check_fast_paths(ctx, rep, "C05.7", [f for f in ix.functions.values() if f.module in _fp_mods and (f.cls is None or T.is_visitor(f.cls))], None)
+    from .common import check_falsy_zero
+    check_falsy_zero(ctx, rep, "C05.6", ['jaqalpaq.core.algorithm.fill_in_let', 'jaqalpaq.core.circuitbuilder', 'jaqalpaq.core.register', 'jaqalpaq.core.constant'], floor_positions=10)
     filler = find_visitors(ctx)
     sub_visitors = [c for c in ix.subclasses(filler) if ix.classes[c].module == MOD]
     rep.analysed["visitors"] = [filler] + sub_visitors
